@@ -365,7 +365,9 @@ def judgeAuth (id : String) (fs : List String) (outs : List String) : String :=
            | none => [])
         if !fails.isEmpty then specfail id (fails.head!) s!"cfg={cfg} kind={kind} op={opn} status={status} code={code} log={",".intercalate log}"
         else
-          let m := serviceCall c p (routehdr == "1") (some op)
+          -- a path that is not an S3 path is refused by path classification, before the signature check and the route
+          let badPath := (cfg.splitOn ";").contains "path=bad"
+          let m := if badPath then refuse [] else serviceCall c p (routehdr == "1") (some op)
           let mlog := m.events.map renderEvent
           let ilog := log.map (fun l => if l.startsWith "backend:" then ":".intercalate ((l.splitOn ":").take 3) else l)
           if mlog == ilog && m.ok == ok then
